@@ -38,3 +38,8 @@ Check Props.C05.C05_upgrade_fails_for_ever :
   prov_run s1 b1 tr2 = Some (s2, b2) -> handles s2 h = Some (a, k) -> step s2 (EvUpg h ok) = Acc s3 ->
   ok = false.
 Check Props.C05.C05_discipline_refines_the_model : forall tr, chk_C05 tr = true -> accepts tr = true.
+Check Props.C05.C05_nothing_left_undone_when_the_run_ends :
+  forall tr s s', run init tr = Acc s -> step s EvQuiesce = Acc s' ->
+  forall a x, actors s a = Some x -> a_phase x <> PhDone ->
+    (a_phase x = PhIdle -> a_queue x = [] /\ closed x = false)
+    /\ (a_phase x = PhIdle \/ in_user_code (a_phase x) = true).
